@@ -112,11 +112,15 @@ def unit_sets(tier):
         yield "tree(MIXED,3)", list(B.tree(B.MIXED, 3)), cfgs[:1] + cfgs[3:4]
         yield "rule-family(1)/4", list(families.rule_family(1))[::4], cfgs[:2]
         yield "mem-family(2)/2", list(families.mem_family(2))[::2], cfgs[:1]
+        from .c06 import A6
+        yield "tree(A6,3)", list(B.tree(A6, 3, max_need=3)), cfgs[:1]
     else:
         yield "tree(CORE,4)", list(B.tree(B.CORE, 4)), cfgs
         yield "tree(MIXED,3)", list(B.tree(B.MIXED, 3)), cfgs
         yield "rule-family(1)", list(families.rule_family(1)), cfgs[:2]
         yield "mem-family(2)", list(families.mem_family(2)), cfgs[:4]
+        from .c06 import A6
+        yield "tree(A6,4)", list(B.tree(A6, 4, max_need=3)), cfgs[:2]
 
 
 def main(tier, seed, only=None):
